@@ -21,6 +21,9 @@ def make_case(rng, edges, D, style=None, mass_mode=None, ext_mode=None, want=Non
             ext = [v for v in verts if rng.random() < 0.5]
         elif em == "two":
             ext = rng.sample(verts, min(2, len(verts)))
+        elif em == "dup":
+            ext = list(verts) + [rng.choice(verts)]
+            rng.shuffle(ext)
         elif em == "none":
             ext = []
         elif em == "edge":
